@@ -250,6 +250,9 @@ def make(targets, jobs=16, timeout=3000, keep_going=False):
         return 124, "make timed out"
 
 
+SHARED_LIBS = ("Lib/Prelude.v", "Lib/PySrc.v")
+
+
 def prop_files(pid, depends=()):
     """The .v files that belong to a property (plus the shared Lib and the
     properties it declares it depends on)."""
@@ -257,7 +260,7 @@ def prop_files(pid, depends=()):
     out = []
     for f in vfiles():
         base = os.path.basename(f)
-        if f == "Lib/Prelude.v" or any(base.startswith(i + "_") or base == i + ".v" for i in ids):
+        if f in SHARED_LIBS or any(base.startswith(i + "_") or base == i + ".v" for i in ids):
             out.append(f)
     return out
 
